@@ -49,6 +49,15 @@ CHECKS = {
             'Trusted: rv/models/lexical.py; xs:NOTATION skipped; QName limited to simple prefixes; name characters outside an '
             'edition-independent alphabet and XSD 1.0 BCE leap years are undecided.',
             'DESIGN.md section 4 (C10)'),
+    'C11': ('exploration',
+            'runtime reference-model monitor: integer-only proleptic Gregorian calendar model vs the datatypes API and XPath date/time expressions',
+            'Literals, components, string forms, todelta/fromdelta round trips, +/- dayTime and yearMonth durations, differences, '
+            'the six comparison operators, adjust-*-to-timezone, component functions and implicit timezones are executed on the real '
+            'datatypes API and through XPath 2.0/3.1 under XSD 1.0 and 1.1 (BCE years, years > 9999, 24:00:00, fractions, timezones) '
+            'and compared with an integer-only civil-date/day-number model that does not use Python datetime.',
+            'Trusted: rv/models/calendar.py; XSD 1.0 BCE leap years, mixed timezone presence without implicit timezone and '
+            'overflow beyond the implementation range are undecided.',
+            'DESIGN.md section 4 (C11)'),
     'C13': ('exploration',
             'runtime shadow-model monitor over operation histories + exhaustive table comparison with unicodedata',
             'Every UnicodeSubset/CharacterClass state reached by random operation histories is compared, after every '
